@@ -252,14 +252,14 @@ class CallMixin:
                 if self.same_const(k, idx):
                     return val
             raise Untranslatable("python-level dict lookup with symbolic key")
-        if obj.pt in ("pylist",) or (obj.pt == "tuple" and obj.py and obj.py[0] == "items"):
+        if obj.pt in ("pylist",) or (obj.pt in ("tuple", "list") and obj.py and obj.py[0] == "items"):
             i = z3.simplify(self.unbox(idx, "int").t)
             if z3.is_int_value(i):
                 items = self.py_items(obj)
                 k = i.as_long()
                 if -len(items) <= k < len(items):
                     return items[k]
-            if obj.pt == "pylist":
+            if obj.pt == "pylist" or (obj.py and obj.py[0] == "items" and len(obj.py[1]) <= 16 and all(x.pt in NATIVE for x in obj.py[1])):
                 items = self.py_items(obj)
                 self.may_raise(st, fr, "IndexError", z3.And(i >= 0, i < len(items)), node, "index")
                 res = items[-1]
